@@ -1,7 +1,7 @@
 (* Request/response interface of the executable model: one S-expression in,
    one out.  Shared by the extracted runner and the in-Coq path. *)
 From InfluxQL Require Import Base.Prelude Base.Sexp Base.Oracles Lex.Token Lex.Reader Lex.Scanner Ast.Ast Ast.SexpAst
-  Val.Duration Parse.ExprTree Parse.Instr Parse.ParseExpr Parse.ParseStmts Ast.Printer Ast.PrinterStmts Parse.Params Ast.Privileges Ast.ColumnNames Sem.Eval Sem.Reduce Sem.Condition Ast.Clone Ast.GroupBy San.Sanitize Lex.Quote Sem.Regex.
+  Val.Duration Parse.ExprTree Parse.Instr Parse.ParseExpr Parse.ParseStmts Ast.Printer Ast.PrinterStmts Parse.Params Ast.Privileges Ast.ColumnNames Sem.Eval Sem.Reduce Sem.Condition Ast.Clone Ast.GroupBy San.Sanitize Lex.Quote Sem.Regex Sem.RewriteFields.
 
 Definition bad_request : sexp := L [A (-1)].
 
@@ -149,6 +149,19 @@ Definition sd_value (s : sexp) : option value :=
 Definition sd_env (s : sexp) : option env :=
   sd_list (fun p => match p with L [k; v] => k' <-o sd_text k ;; v' <-o sd_value v ;; Some (k', v') | _ => None end) s.
 
+Definition sd_datatype (s : sexp) : option datatype := match s with A c => datatype_of_code c | _ => None end.
+Definition sd_schema (s : sexp) : option schema :=
+  sd_list (fun p => match p with
+                    | L [n; fs; tags; e] =>
+                        n' <-o sd_text n ;;
+                        fs' <-o sd_list (fun kv => match kv with
+                                                   | L [k; t] => k' <-o sd_text k ;; t' <-o sd_datatype t ;; Some (k', t')
+                                                   | _ => None end) fs ;;
+                        tags' <-o sd_list sd_text tags ;;
+                        e' <-o sd_bool e ;;
+                        Some (n', mkMS fs' tags' e')
+                    | _ => None end) s.
+
 Definition dispatch1 (orc : oracles) (req : sexp) : sexp :=
   match req with
   | L (A op :: args) =>
@@ -268,6 +281,11 @@ Definition dispatch1 (orc : oracles) (req : sexp) : sexp :=
           match sd_resyn re with
           | Some re' => se_opt (se_list se_text) (match_exact re')
           | None => bad_request
+          end
+      | 29%nat, [sc; q] =>
+          match sd_schema sc, sd_select q with
+          | Some sc', Some q' => se_res se_select (rewrite_fields_sch orc sc' q')
+          | _, _ => bad_request
           end
       | 12%nat, [e] => match sd_expr e with Some e' => se_text (print_expr orc e') | None => bad_request end
       | _, _ => bad_request
